@@ -30,7 +30,7 @@ import (
 // (power-on values are not asserted), apart from the constant bits.
 
 type c06Op struct {
-	K string `json:"k"` // "w" write, "r" read, "run" N machine cycles of the hardware, "cnt" hook: place the timer's internal counter (only while the timer is stopped)
+	K string `json:"k"` // "w" write, "r" read, "run" N machine cycles of the hardware, "dma" store V to FF46 and run N cycles: the next operations happen with the transfer in flight (see c06Flight), "dmaend" let it complete, "cnt" hook: place the timer's internal counter (only while the timer is stopped)
 	A uint16 `json:"a,omitempty"`
 	V uint8  `json:"v,omitempty"`
 	N int    `json:"n,omitempty"`
@@ -324,8 +324,34 @@ func c06RunInner(c c06Case, ctx *c06Ctx) (sig string, err error) {
 	// guest cannot read, and what LY shows there is not asserted).
 	twin := machine.NewHW(c06ROM(c.Cart, c.CGB), nil, false)
 	sinceLYStore := -1 // machine cycles since the last store to LY (-1: none yet)
+	var flight c06Flight
+	idle := func(n int) {
+		for k := 0; k < n; k++ {
+			hw.HW()
+			twin.HW()
+		}
+		if sinceLYStore >= 0 {
+			sinceLYStore += n
+		}
+	}
+	hot := -1 // >= 0: the operation is a "dma": cycles to run after the store to FF46 before the next operation
 	for i, op := range c.Ops {
 		ctx.op, ctx.step = op, i
+		if n := flight.before(op); n > 0 {
+			idle(n)
+			m.ran(n)
+		}
+		hot = -1
+		switch op.K {
+		case "dmaend":
+			continue
+		case "dma":
+			if op.V < 0xc0 || op.V > 0xdf || op.N < 0 || op.N > 160 {
+				return "bad-case", fmt.Errorf("op %d: in-flight transfers are generated from work RAM pages with a lead of 0..160 cycles", i)
+			}
+			hot = op.N
+			op = c06Op{K: "w", A: 0xff46, V: op.V}
+		}
 		if m.skip(c.Cart, op) {
 			continue
 		}
@@ -338,6 +364,7 @@ func c06RunInner(c c06Case, ctx *c06Ctx) (sig string, err error) {
 				hw.HW()
 				twin.HW()
 			}
+			flight.ran(op.N)
 			if sinceLYStore >= 0 {
 				sinceLYStore += op.N
 			}
@@ -380,6 +407,14 @@ func c06RunInner(c c06Case, ctx *c06Ctx) (sig string, err error) {
 					m.nontrivial = true
 				}
 			case 0xff46:
+				if hot >= 0 {
+					// what follows happens while the transfer is in flight
+					idle(hot)
+					m.ran(hot)
+					flight.left = 170 - hot
+					m.feat["operations-during-dma"] = true
+					break
+				}
 				// no transfer in flight for what follows
 				for k := 0; k < 170; k++ {
 					hw.HW()
@@ -446,11 +481,49 @@ func c06RunInner(c c06Case, ctx *c06Ctx) (sig string, err error) {
 	return "", nil
 }
 
+// c06Flight: a transfer started by a "dma" operation is NOT run to completion at once: the operations that follow
+// happen while it is in flight (on a DMG only OAM is out of reach then - every other location and every register
+// reads and writes as usual). It is completed before anything that touches FE00-FEFF or FF46, before a counter
+// placement, at a "dmaend" operation, and at the end of the case. Both passes (runner and classifier) use this.
+type c06Flight struct{ left int }
+
+// before returns the number of machine cycles to run before op (completing the transfer), or 0.
+func (f *c06Flight) before(op c06Op) int {
+	if f.left <= 0 {
+		return 0
+	}
+	touches := (op.K == "w" || op.K == "r") && (op.A >= 0xfe00 && op.A <= 0xfeff || op.A == 0xff46)
+	if op.K == "dmaend" || op.K == "dma" || op.K == "cnt" || touches {
+		n := f.left
+		f.left = 0
+		return n
+	}
+	return 0
+}
+
+func (f *c06Flight) ran(n int) {
+	if f.left -= n; f.left < 0 {
+		f.left = 0
+	}
+}
+
 // c06Analyse runs the model alone to classify a case.
 func c06Analyse(c c06Case) (feats []string, nontrivial bool) {
 	m := c06NewModel()
 	skipped := 0
+	var flight c06Flight
 	for _, op := range c.Ops {
+		if n := flight.before(op); n > 0 {
+			m.ran(n)
+		}
+		hot := -1
+		switch op.K {
+		case "dmaend":
+			continue
+		case "dma":
+			hot = op.N
+			op = c06Op{K: "w", A: 0xff46, V: op.V}
+		}
 		if m.skip(c.Cart, op) {
 			skipped++
 			continue
@@ -458,6 +531,7 @@ func c06Analyse(c c06Case) (feats []string, nontrivial bool) {
 		switch op.K {
 		case "run":
 			m.ran(op.N)
+			flight.ran(op.N)
 		case "cnt":
 			if m.stoppedFor >= 8 {
 				m.feat["counter-placed"] = true
@@ -469,7 +543,13 @@ func c06Analyse(c c06Case) (feats []string, nontrivial bool) {
 				m.feat["write-"+c06Region(op.A)] = true
 			}
 			if op.A == 0xff46 {
-				m.ran(170)
+				if hot >= 0 {
+					m.ran(hot)
+					flight.left = 170 - hot
+					m.feat["operations-during-dma"] = true
+				} else {
+					m.ran(170)
+				}
 			}
 		case "r":
 			if _, mask, _ := m.expect(op.A); mask != 0 {
@@ -753,13 +833,35 @@ func c06GenCase(rt *rapid.T) c06Case {
 		case 12:
 			w := writeGen.Draw(rt, "w")
 			return []c06Op{w, writeGen.Draw(rt, "w2"), {K: "r", A: alias(rt, w.A)}}
+		case 14:
+			// a transfer in flight: one to three accesses to anything but OAM while it runs
+			ops := []c06Op{{K: "dma", V: uint8(rapid.IntRange(0xc0, 0xdf).Draw(rt, "page")), N: rapid.SampledFrom([]int{0, 1, 2, 5, 40, 100, 158, 160}).Draw(rt, "lead")}}
+			for k := rapid.IntRange(1, 3).Draw(rt, "inflight"); k > 0; k-- {
+				if rapid.Bool().Draw(rt, "reg") {
+					a := rapid.SampledFrom(c06RegList).Draw(rt, "reg-a")
+					v := rapid.Byte().Draw(rt, "reg-v")
+					if a == 0xff40 {
+						v &^= 0x80
+					}
+					if a == 0xff07 {
+						v &^= 0x04
+					}
+					if a != 0xff46 {
+						ops = append(ops, c06Op{K: "w", A: a, V: v}, c06Op{K: "r", A: a})
+					}
+				} else {
+					w := writeGen.Draw(rt, "w")
+					ops = append(ops, w, c06Op{K: "r", A: alias(rt, w.A)})
+				}
+			}
+			return append(ops, c06Op{K: "dmaend"})
 		case 13:
 			// a store to an address the DMG leaves unmapped (where a Game Boy Color has its bank, speed and palette
 			// registers) between a write and a read of a plain location: nothing may move
 			w := c06Op{K: "w", A: uint16(rapid.SampledFrom([]int{0x8000 + 0x123, 0xc000, 0xc123, 0xd000, 0xd123, 0xdfff, 0xf123, 0xff80}).Draw(rt, "plain")), V: rapid.Byte().Draw(rt, "pv")}
 			u := uint16(rapid.SampledFrom([]int{0xff70, 0xff70, 0xff4f, 0xff4d, 0xff4c, 0xff50, 0xff51, 0xff55, 0xff56, 0xff68, 0xff69, 0xff6a, 0xff6b, 0xff6c, 0xff72, 0xff75, 0xff7f, 0xff03, 0xff08, 0xff15, 0xff1f, 0xff27}).Draw(rt, "unmapped"))
 			return []c06Op{w, {K: "w", A: u, V: rapid.Byte().Draw(rt, "uv")}, {K: "r", A: alias(rt, w.A)}, {K: "r", A: u}}
-		case 14, 15:
+		case 15:
 			w := writeGen.Draw(rt, "w")
 			return []c06Op{w, runGen.Draw(rt, "run"), {K: "r", A: alias(rt, w.A)}}
 		case 16, 17:
